@@ -224,6 +224,9 @@ def make_case(g, draw_seek, seek_delay, seek_frac, faults, lat, rng_seed, timing
            "group_id": "g" if kind in ("assign_group", "subscribe_group") else None,
            "request_timeout_ms": 400, "retry_backoff_ms": 20, "fetch_max_wait_ms": 50,
            "metadata_max_age_ms": 5000, "session_timeout_ms": 3000, "heartbeat_interval_ms": 300}
+    if lo_max in (1, 3):
+        # the policy name is matched case-insensitively: half of the grid spells it differently
+        cfg["auto_offset_reset_as"] = policy.capitalize() if lo_max == 1 else policy.upper()
     ops = []
     if draw_seek:
         ops += [["sleep", seek_delay], ["seek", 0, seek_frac], ["sleep", timing]]
